@@ -20,15 +20,17 @@ L == {0, 4, 8}
 Pts == {<<x, y>> : x \in L, y \in L}
 LessP(p, q) == p[1] < q[1] \/ (p[1] = q[1] /\ p[2] < q[2])
 Tris == {<<a, b, c>> \in Pts \X Pts \X Pts : Orient(a, b, c) # 0 /\ LessP(a, b) /\ LessP(a, c)}
-Probes == {<<x, y>> : x \in {-1, 1, 2, 3, 5, 6, 7, 9}, y \in {-1, 1, 2, 3, 5, 6, 7, 9}}
+Probes == {<<x, y>> : x \in {-1, 1, 2, 5, 7, 9}, y \in {-1, 1, 3, 6, 7, 9}}
 
-VARIABLES s, c
-Init == s \in Tris /\ c \in Tris /\ SysInit
-Next == UNCHANGED <<s, c, engines, offsets, pkg>>
+VARIABLES s, c, phase
+\* the subject is chosen in the initial state and the clip in the first step, so that TLC's workers share the work
+Init == s \in Tris /\ c = <<>> /\ phase = 0 /\ SysInit
+Next == phase = 0 /\ phase' = 1 /\ c' \in Tris /\ UNCHANGED <<s, engines, offsets, pkg>>
 
 Off(p, t) == ~OnClosedPath(p, t)
 
 WindingTheorems ==
+  phase = 0 =>
   \A p \in Probes : Off(p, s) =>
     /\ \A k \in 0..2 : WnPath(p, Rotate(s, k)) = WnPath(p, s)
     /\ WnPath(p, Append(s, s[1])) = WnPath(p, s)
@@ -38,12 +40,14 @@ WindingTheorems ==
     /\ \A k \in 4..7 : WnPath(SymPt(k, p), MapPath(k, s)) = -WnPath(p, s)
 
 FillTheorems ==
+  phase = 0 =>
   \A p \in Probes : Off(p, s) =>
     LET w == WnPath(p, s) IN
     /\ Fill(0, w) = Fill(0, -w) /\ Fill(1, w) = Fill(1, -w)
     /\ Fill(2, w) = Fill(3, -w) /\ Fill(3, w) = Fill(2, -w)
 
 SetTheorems ==
+  phase = 1 =>
   \A p \in Probes : (Off(p, s) /\ Off(p, c)) =>
     \A fr \in 0..3 :
       LET E(ct) == Expected(ct, fr, <<s>>, <<c>>, p)
